@@ -632,4 +632,29 @@ example : (run exactArith ⟨10, 2⟩ init [(0, 0), (0, 0), (0, 1), (1, 1), (0, 
 
 example : MonoFrom 0 [(0, 0), (0, 0), (0, 1), (1, 1), (0, 25), (1, 30)] := by simp [MonoFrom]
 
+/-- **the driver's limiter is the proved one**: the stepper the model driver runs over a bare admission
+    function (exact or binary32) is `enqueue` whenever that function is an `Arith`'s -/
+theorem enqueueF_eq_enqueue (A : Arith) (c : Cfg) (s : State) (k now : Nat) :
+    enqueueF A.allow c s k now = enqueue A c s k now := rfl
+
+/-- the two laws, as a check on one call of a bare admission function (what the driver evaluates on every
+    call of the binary32 arithmetic): an arithmetic passing it on every call it is asked is indistinguishable,
+    on those calls, from one satisfying L1 and L2 -/
+def lawsHoldAt (allow : Nat → Nat → Nat → Nat → Nat → Bool) (prev cur limit age d : Nat) : Bool :=
+  (!allow prev cur limit age d || decide (cur < limit)) &&
+  (prev != 0 || allow prev cur limit age d == decide (cur < limit))
+
+theorem arith_lawsHoldAt (A : Arith) (prev cur limit age d : Nat) (hd : 0 < d) :
+    lawsHoldAt A.allow prev cur limit age d = true := by
+  unfold lawsHoldAt
+  have h1 : (!A.allow prev cur limit age d || decide (cur < limit)) = true := by
+    cases h : A.allow prev cur limit age d with
+    | false => simp
+    | true => simp [A.sound h]
+  have h2 : (prev != 0 || A.allow prev cur limit age d == decide (cur < limit)) = true := by
+    cases prev with
+    | zero => simp [A.fresh hd]
+    | succ n => simp
+  simp [h1, h2]
+
 end Passage.Props.C13
